@@ -9,6 +9,7 @@
  *                      [-c] [-m] [-S a|r|l|u|d|i|o|R|I] [-D n|r|i|b] [-O c|b|g|gf|v|f] [-j N] [-p]
  *        -p : FILE is an inline expression given as text on the command line (like mpsolve -p)
  *        -P N : set the packet cap s->max_pack (public context field) to N            (added for C03)
+ *        -W N : set the precision cap s->mpwp_max (public context field) to N bits     (added for C03)
  *        -T   : enable the library's debug log into a memory stream and print a compact event trace
  *               (`EV <tag> [number]` lines: phase / packet / precision events) before META or SOLVE-ERR (C03)
  */
@@ -150,7 +151,7 @@ int main (int argc, char **argv)
   int explicit_alg = 0, nthreads = 0;
   char *obuf = NULL; size_t olen = 0;
   FILE *ostr = open_memstream (&obuf, &olen);
-  int trace = 0; long max_pack = -1;
+  int trace = 0; long max_pack = -1, mpwp_max = -1;
   char *lbuf = NULL; size_t llen = 0; FILE *lstr = NULL;
   FILE *f = stdout;
 
@@ -173,6 +174,7 @@ int main (int argc, char **argv)
         case 'm': mps_context_set_avoid_multiprecision (s, true); break;
         case 'p': inl = 1; break;
         case 'P': max_pack = atol (v); i++; break;
+        case 'W': mpwp_max = atol (v); i++; break;
         case 'T': trace = 1; break;
         case 'j': nthreads = atoi (v); mps_thread_pool_set_concurrency_limit (s, NULL, nthreads); s->n_threads = nthreads; i++; break;
         case 'S':
@@ -237,6 +239,8 @@ int main (int argc, char **argv)
   s->outstr = ostr;
   if (max_pack >= 0)
     s->max_pack = max_pack;
+  if (mpwp_max >= 0)
+    s->mpwp_max = mpwp_max;
   if (trace)
     {
       lstr = open_memstream (&lbuf, &llen);
